@@ -175,8 +175,9 @@ CLAIMED = {
         "oracle reading that response as intended (hypothesis Honest) the round is carried out under ANY fragment size, every "
         "requested chunk becomes valid and no other mark changes; the number of marks still 0 strictly decreases, so the loop "
         "ends without error and with every chunk valid, and the target IS B (or a collision).  Hypotheses that remain: Honest "
-        "(glibc's regexec finds the boundary and the two numbers of each Content-Range; the part header's first CRLFCRLF is its "
-        "end; the closing delimiter holds no part header) and that the scan marked the chunks without stored bytes valid (marks_of_scan proves the rest of the shape "
+        "(glibc's regexec finds the boundary and the two numbers of each Content-Range - regex semantics only: that a part header's "
+        "first CRLFCRLF is its end and that the closing delimiter holds no part header are proved about the server's text, "
+        "partHdr_noEarly / closing_noHeader) and that the scan marked the chunks without stored bytes valid (marks_of_scan proves the rest of the shape "
         "of the marks: one per chunk, 0 or 1, for any target and old file) - both are met on every explored run, which is what the check decides on explored "
         "inputs only: the procedure is run in-process with the real library against a reference server with every request "
         "logged, and judged (target == B, validation 1, requested bytes == extents of chunks neither verified-present nor "
@@ -185,8 +186,7 @@ CLAIMED = {
         "working tree (src/zck_dl.c + libcurl) is run against a loopback HTTP range server (single-range / multipart / 200-when-"
         "too-many-ranges, uneven socket writes) and judged by the same predicate on the server's request log and the file it left.",
    design_ref="DESIGN.md section 7a C04",
-   note="Partial: soundness and completeness are theorems about the model; completeness rests on the hypotheses Honest (regex oracle "
-        "+ response text) and 'the scan marks chunks without stored bytes valid', which are checked on explored runs, not proved; the "
+   note="Partial: soundness and completeness are theorems about the model; completeness rests on the hypotheses Honest (regex oracle) and 'the scan marks chunks without stored bytes valid', which are checked on explored runs, not proved; the "
         "exact request set (nothing fetched twice across rounds) is request_only_missing + the predicate on explored runs "
         "(soundness hypotheses: the old file has the same chunk checksum type; an empty dictionary entry has no stored bytes). "
         "libcurl and zckdl's own plumbing (range back-off, --fail-no-ranges) are not modelled: they are exercised by the real-zckdl "
